@@ -684,6 +684,10 @@ impl<'a> Run<'a> {
 		self.r.eval(&format!("R{}", gstr(txt)), nontrivial && got.is_some());
 		self.r.count(if got.is_some() { "read_ok" } else { "read_err" });
 		self.r.case(stream, format!("CRead {} {}", gstr(txt), gres(got.as_ref().map(g_diff))));
+		// C04_read_image on the implementation alone: valid keys, no action above the classes, only name actions a line can express
+		if let Some(d) = &got { if !read_image_ok(d) {
+			self.r.violation("read_file returned a diff with an invalid key or a name action no line can express (empty value, Edit(x,x), invalid name, action on the mapping set itself)".into(), format!("text:\n{}\nread_file gave:\n{}", show(txt), show_diff(d)));
+		} }
 		got
 	}
 	/// diff -> print -> read_file == norm
@@ -705,6 +709,46 @@ fn mname(s: &S) -> bool { *s == cps_str("<init>") || *s == cps_str("<clinit>") |
 fn cname(s: &S) -> bool { clean(s) && s.first() != Some(&('[' as u32)) && s.split(|&c| c == '/' as u32).all(|p| unq(&p.to_vec())) }
 fn act_all(a: &Act, f: &dyn Fn(&S) -> bool) -> bool { match a { Act::None => true, Act::Add(b) => f(b), Act::Rem(x) => f(x), Act::Edit(x, y) => f(x) && f(y) } }
 fn keys_distinct<K: Ord>(it: impl Iterator<Item = K>) -> bool { let v: Vec<K> = it.collect(); let n = v.len(); v.into_iter().collect::<BTreeSet<K>>().len() == n }
+// ---------- independent reading of an action line (TinyLine::action / action_string; = Gallina `decode_spec`) ----------
+fn unescape_ref(s: &S) -> S {
+	let mut out = vec![]; let mut i = 0;
+	while i < s.len() {
+		if s[i] == '\\' as u32 && i + 1 < s.len() {
+			let m = match char::from_u32(s[i + 1]) { Some('\\') => Some('\\'), Some('n') => Some('\n'), Some('r') => Some('\r'), Some('t') => Some('\t'), _ => None };
+			if let Some(m) = m { out.push(m as u32); i += 2; continue; }
+		}
+		out.push(s[i]); i += 1;
+	}
+	out
+}
+fn line_col(cells: &[S], i: usize) -> Option<S> { cells.get(i).filter(|c| !c.is_empty()).cloned() }
+/// more than two cells: refused; a non-empty cell the checked constructor refuses: refused; empty = absent; equal = none;
+/// valid = None: a comment line (no check, values unescaped afterwards)
+fn ref_line(cells: &[S], valid: Option<&dyn Fn(&S) -> bool>) -> Option<Act> {
+	if cells.len() > 2 { return None; }
+	if let Some(v) = valid { if cells.iter().any(|c| !c.is_empty() && !v(c)) { return None; } }
+	let a = match (line_col(cells, 0), line_col(cells, 1)) {
+		(None, None) => Act::None, (None, Some(b)) => Act::Add(b), (Some(a), None) => Act::Rem(a),
+		(Some(a), Some(b)) => if a == b { Act::None } else { Act::Edit(a, b) },
+	};
+	Some(if valid.is_none() { match a { Act::None => Act::None, Act::Add(b) => Act::Add(unescape_ref(&b)), Act::Rem(x) => Act::Rem(unescape_ref(&x)), Act::Edit(x, y) => Act::Edit(unescape_ref(&x), unescape_ref(&y)) } } else { a })
+}
+fn info_ok(a: &Act, f: &dyn Fn(&S) -> bool) -> bool {
+	act_all(a, f) && match a { Act::Edit(x, y) => x != y, _ => true }
+}
+/// = Gallina `read_image_b` (the keys of a DDiff come out of IndexMaps; distinctness is checked all the same).
+/// Validity as duke's checked constructors see it (a CR inside a name is fine there), not the narrower `textual` one.
+fn read_image_ok(d: &DDiff) -> bool {
+	fn unq0(s: &S) -> bool { !s.is_empty() && !s.iter().any(|&c| c == '.' as u32 || c == ';' as u32 || c == '[' as u32 || c == '/' as u32) }
+	fn mname0(s: &S) -> bool { *s == cps_str("<init>") || *s == cps_str("<clinit>") || (unq0(s) && !s.iter().any(|&c| c == '<' as u32 || c == '>' as u32)) }
+	fn cname0(s: &S) -> bool { s.first() != Some(&('[' as u32)) && s.split(|&c| c == '/' as u32).all(|p| unq0(&p.to_vec())) }
+	d.info == Act::None && d.doc == Act::None && keys_distinct(d.classes.iter().map(|c| c.name.clone()))
+	&& d.classes.iter().all(|c| cname0(&c.name) && info_ok(&c.info, &cname0)
+		&& keys_distinct(c.fields.iter().map(|f| (f.name.clone(), f.desc.clone()))) && keys_distinct(c.methods.iter().map(|m| (m.name.clone(), m.desc.clone())))
+		&& c.fields.iter().all(|f| unq0(&f.name) && info_ok(&f.info, &unq0))
+		&& c.methods.iter().all(|m| mname0(&m.name) && info_ok(&m.info, &mname0) && keys_distinct(m.params.iter().map(|p| p.index))
+			&& m.params.iter().all(|p| info_ok(&p.info, &unq0))))
+}
 fn textual_m(m: &MMappings) -> bool {
 	let n1 = |r: &NamesRow, f: &dyn Fn(&S) -> bool| r[1].as_ref().map_or(true, f);
 	m.classes.iter().all(|c| cname(c.names[0].as_ref().unwrap()) && n1(&c.names, &cname)
@@ -772,7 +816,7 @@ pub fn run(ctx: &Ctx) -> anyhow::Result<Report> {
 	let mut r = Report::new("C04", "C04.Run");
 	r.shard_size = 200;
 	let mut rng = Rng::new(ctx.seed);
-	r.rule = "table: every combination of the 4 actions x target entry {absent, present without name, present with the stated old name, present with another name} at class/field/method/parameter level and the 4 actions x comment {absent, stated old value, other value} at mappings/class/field/method/parameter level on a single-entry tree, each also below an added and below a removed parent; pairs: (A,B) derived from a generated two-namespace ancestor by independent random edits (drop, rename, comment change incl. the comment of the mapping set itself, add at every level - also the same new key on both sides with different names/comments) so that only-A / only-B / both-equal / both-different entries occur at every level; pair-chain: for a third of them the way back diff(R,A) from the tree R = apply(diff(A,B),A) as apply_to returned it (its own entry order); comments and second-namespace names are drawn from pools that contain white-space-only values (space, two spaces, NBSP, EM SPACE, IDEOGRAPHIC SPACE, FF, NEL, LINE SEPARATOR) and values with leading / trailing / inner blanks; pair-blank: single-entry pairs with absent / empty / blank / blank-edged comment (five levels) or name (four levels) on either side, text-blank: single-entry diffs with such old / new values in every comment and name action through print / read_file; with separate streams violating each hypothesis (absent second-namespace names, first-namespace parameter names, empty comments, differing namespaces); arbitrary: random diffs aimed at a generated target (1, 2, 3 and 4 namespaces, every target namespace incl. the first and an unknown one), consistent or with injected faults; text: printed diffs, the repository's four .tinydiff fixtures, and mutations of both; holder: exhaustively on the single-path tree (class C / field f / method m / parameter 0) every class entry {None, Edit(x,x); thorough: Edit, Remove, Add} x class {absent, present} x field entry {none, Add, None} x method entry {none, Add, None, Edit(x,x)} x parameter entry {none, Add, None} x class comment {None, Add} x every combination of the targets below an existing class {field, method, parameter present / absent}; action: the helpers of Action (is_diff, as_ref, to_tuple, from_tuple, flip) on None / Add / Remove / Edit over empty, blank, equal and different values, with flip undoing apply_diff_option on every target it applies to; sizes: a class with 300 fields and a method with 300 parameters against diffs touching every second entry in shuffled order, names and comments longer than 32 KiB through diff / apply / print / read_file, parameter indices 255 / 256 / 65535 / 65536 / 2^32 / usize::MAX; not-utf8: files with an invalid byte sequence on the header line or on a line at every depth (read_file must answer Err, never panic). pair-path: exhaustively on the single-path tree, per level what differs between A and B (class same / renamed / comment changed / only in A / only in B; field, method, parameter additionally absent on both sides) in every combination - in particular unchanged holders above changed, added or removed children. Oracle on the implementation: (counted, not judged: diff(A,B) equals the independently computed difference - union of keys at every level, Edit on both sides, Remove / Add on one side, comment old -> new; = C04_diff_exact); apply(diff(A,B),A) equivalent to B, also through print/read_file; result of apply_to equals an independent map-based reference and Err exactly when the reference finds an inconsistency; a diff whose every action is None or Edit(x,x) returns the target itself, same order (C04_noop_identity); diff is Err exactly when a needed name is absent; read_file(print(d)) = norm(d). Every oracle comparison is up to the order of every map (results and diffs are canonicalised); the exact IndexMap order is compared only in the correspondence (CApply / CPair / CRead), where the model follows the code's swap_remove. A pair whose top-level comments differ also goes through the text form: everything but that comment must arrive (the format has no line for it). Non-trivial: the call returned Ok on a non-empty tree; distinct by the full input. For every pair the harness also evaluates the theorems' hypotheses (inverse_hyps_b, f3_class, text_hyps_b, f4_class, text_hyps_top_b) and Coq evaluates the Gallina booleans on the same pair (part of CPair); for a pair inside the hypotheses of the inverse theorems Coq also judges what the implementation answered - apply(diff(A,B),A) and the same through the text - with Quill.Mappings.equivb (result_is: well-formed and equal to B up to the order of every map; C04_result_is / C04_equivb_iff_mequiv); inside the hypotheses a failing oracle is always a violation, the known-finding classifiers apply only when f3_class / f4_class is true.".into();
+	r.rule = "table: every combination of the 4 actions x target entry {absent, present without name, present with the stated old name, present with another name} at class/field/method/parameter level and the 4 actions x comment {absent, stated old value, other value} at mappings/class/field/method/parameter level on a single-entry tree, each also below an added and below a removed parent; pairs: (A,B) derived from a generated two-namespace ancestor by independent random edits (drop, rename, comment change incl. the comment of the mapping set itself, add at every level - also the same new key on both sides with different names/comments) so that only-A / only-B / both-equal / both-different entries occur at every level; pair-chain: for a third of them the way back diff(R,A) from the tree R = apply(diff(A,B),A) as apply_to returned it (its own entry order); comments and second-namespace names are drawn from pools that contain white-space-only values (space, two spaces, NBSP, EM SPACE, IDEOGRAPHIC SPACE, FF, NEL, LINE SEPARATOR) and values with leading / trailing / inner blanks; pair-blank: single-entry pairs with absent / empty / blank / blank-edged comment (five levels) or name (four levels) on either side, text-blank: single-entry diffs with such old / new values in every comment and name action through print / read_file; with separate streams violating each hypothesis (absent second-namespace names, first-namespace parameter names, empty comments, differing namespaces); arbitrary: random diffs aimed at a generated target (1, 2, 3 and 4 namespaces, every target namespace incl. the first and an unknown one), consistent or with injected faults; text: printed diffs, the repository's four .tinydiff fixtures, and mutations of both; holder: exhaustively on the single-path tree (class C / field f / method m / parameter 0) every class entry {None, Edit(x,x); thorough: Edit, Remove, Add} x class {absent, present} x field entry {none, Add, None} x method entry {none, Add, None, Edit(x,x)} x parameter entry {none, Add, None} x class comment {None, Add} x every combination of the targets below an existing class {field, method, parameter present / absent}; action: the helpers of Action (is_diff, as_ref, to_tuple, from_tuple, flip) on None / Add / Remove / Edit over empty, blank, equal and different values, with flip undoing apply_diff_option on every target it applies to; sizes: a class with 300 fields and a method with 300 parameters against diffs touching every second entry in shuffled order, names and comments longer than 32 KiB through diff / apply / print / read_file, parameter indices 255 / 256 / 65535 / 65536 / 2^32 / usize::MAX; not-utf8: files with an invalid byte sequence on the header line or on a line at every depth (read_file must answer Err, never panic). line-action: TinyLine::action / action_string through read_file on one-entry files - every list of 0, 1 and 2 cells over a pool (empty, valid, valid for one line kind only, blank, non-BMP, backslash sequences) and random lists of 3 or 4 cells after the key of a class / field / method / parameter line and on a comment line; judged by an independent two-column reading (more than two cells or an invalid non-empty cell: refused; empty = absent; equal = none; comments unescaped after the comparison) and by apply_diff_option of the decoded action on absent / old column / new column / another value (C04_line_action_spec, C04_line_action_apply). pair-path: exhaustively on the single-path tree, per level what differs between A and B (class same / renamed / comment changed / only in A / only in B; field, method, parameter additionally absent on both sides) in every combination - in particular unchanged holders above changed, added or removed children. Oracle on the implementation: (counted, not judged: diff(A,B) equals the independently computed difference - union of keys at every level, Edit on both sides, Remove / Add on one side, comment old -> new; = C04_diff_exact); apply(diff(A,B),A) equivalent to B, also through print/read_file; result of apply_to equals an independent map-based reference and Err exactly when the reference finds an inconsistency; a diff whose every action is None or Edit(x,x) returns the target itself, same order (C04_noop_identity); diff is Err exactly when a needed name is absent; read_file(print(d)) = norm(d). Every oracle comparison is up to the order of every map (results and diffs are canonicalised); the exact IndexMap order is compared only in the correspondence (CApply / CPair / CRead), where the model follows the code's swap_remove. A pair whose top-level comments differ also goes through the text form: everything but that comment must arrive (the format has no line for it). Non-trivial: the call returned Ok on a non-empty tree; distinct by the full input. For every pair the harness also evaluates the theorems' hypotheses (inverse_hyps_b, f3_class, text_hyps_b, f4_class, text_hyps_top_b) and Coq evaluates the Gallina booleans on the same pair (part of CPair); for a pair inside the hypotheses of the inverse theorems Coq also judges what the implementation answered - apply(diff(A,B),A) and the same through the text - with Quill.Mappings.equivb (result_is: well-formed and equal to B up to the order of every map; C04_result_is / C04_equivb_iff_mequiv); inside the hypotheses a failing oracle is always a violation, the known-finding classifiers apply only when f3_class / f4_class is true.".into();
 	r.notes.push("F3 classifier: apply(diff(A,B),A) equals B with every parameter's first-namespace name replaced by A's at the same path (or absent), and B is not of that form; F4 classifier: A or B has an empty comment, the diff read back equals norm(diff), the empty = absent rule (not merely Edit(a,a) = None) changed a comment action of this diff below the top level, and the through-text result is exactly the reference application of the diff that was read back; anything else on that stream is a violation".into());
 	r.notes.push("the comment of the mapping set itself has no line in the .tinydiff format (tiny_v2_diff::read returns javadoc = None always: C04_read_no_top): pairs with different top-level comments are covered in memory (inverse law, incl. seed class 'diff drops the top-level comment action') and, through the text, up to that comment (C04_text_inverse_modulo_top; necessity of equal top-level comments: C04_text_inverse_needs_same_top)".into());
 	{
@@ -1273,6 +1317,69 @@ pub fn run(ctx: &Ctx) -> anyhow::Result<Report> {
 			}
 		}
 		run.r.count_n("not_utf8_files", n);
+	}
+	// line-action: TinyLine::action / action_string observed through read_file on one-entry files: the cells after the key
+	// of a class / field / method / parameter line and the cells of a comment line; all lists of 0, 1, 2 cells over a pool
+	// (empty, valid, valid for one kind only, blank, non-BMP, escape sequences) and random lists of 3 or 4 cells
+	{
+		let pool: Vec<S> = ["", "a", "b", "A/B", "a.b", "<init>", "<x>", " ", "[I", "a;", "\u{1F600}", "a\\nb", "\\", "\\\\", "\\x", "\\\\x", "\\n"].iter().map(|s| cps_str(s)).collect();
+		let heads = ["tiny\t2\t0\nc\tK", "tiny\t2\t0\nc\tK\n\tf\tI\tk", "tiny\t2\t0\nc\tK\n\tm\t()V\tk", "tiny\t2\t0\nc\tK\n\tm\t()V\tk\n\t\tp\t0\t", "tiny\t2\t0\nc\tK\n\tc"];
+		let kinds = ["class", "field", "method", "parameter", "comment"];
+		for kind in 0..5usize {
+			let mut lists: Vec<Vec<S>> = vec![vec![], vec![vec![]; 3], vec![vec![]; 4]];
+			for x in &pool { lists.push(vec![x.clone()]); for y in &pool { lists.push(vec![x.clone(), y.clone()]); } }
+			for _ in 0..(if ctx.thorough { 400 } else { 40 }) {
+				let n = rng.range(3, 4);
+				lists.push((0..n).map(|_| if rng.below(2) == 0 { vec![] } else { pool[rng.below(pool.len())].clone() }).collect());
+			}
+			for cells in lists {
+				let mut txt = cps_str(heads[kind]);
+				for c in &cells { txt.push(9); txt.extend(c.iter()); }
+				txt.push(10);
+				let replay = format!("stream line-action, {} line, cells {:?}\ntext:\n{}", kinds[kind], cells.iter().map(|c| show(c)).collect::<Vec<_>>(), show(&txt));
+				let got = match run.tmp.read(&utf8(&txt).unwrap()) { Ok(g) => g, Err(p) => { run.r.violation(format!("tiny_v2_diff::read_file panicked: {p}"), replay.clone()); continue; } };
+				let act: Option<Act> = match &got {
+					None => None,
+					Some(d) => {
+						let c = d.classes.first();
+						let a = match kind {
+							0 => c.map(|c| c.info.clone()),
+							1 => c.and_then(|c| c.fields.first()).map(|f| f.info.clone()),
+							2 => c.and_then(|c| c.methods.first()).map(|m| m.info.clone()),
+							3 => c.and_then(|c| c.methods.first()).and_then(|m| m.params.first()).map(|p| p.info.clone()),
+							_ => c.map(|c| c.doc.clone()),
+						};
+						if a.is_none() { run.r.violation("read_file returned a diff without the entry of the line".into(), replay.clone()); continue; }
+						a
+					}
+				};
+				let want = match kind { 0 => ref_line(&cells, Some(&cname)), 1 | 3 => ref_line(&cells, Some(&unq)), 2 => ref_line(&cells, Some(&mname)), _ => ref_line(&cells, None) };
+				run.r.eval(&format!("L{kind}{}", gstr(&txt)), act.is_some());
+				run.r.count(if act.is_some() { "line_action_ok" } else { "line_action_err" });
+				if act != want {
+					run.r.violation("the action read from a line is not the two-column reading (more than two cells / an invalid cell: refused; empty = absent; equal = none)".into(),
+						format!("{replay}\nread_file gave: {}\nthe two columns say: {}", act.as_ref().map(sh_act).unwrap_or("Err".into()), want.as_ref().map(sh_act).unwrap_or("Err".into())));
+				}
+				// what the decoded action does (C04_line_action_apply): equal columns - nothing checked, nothing changed;
+				// otherwise the target must be the old column and becomes the new column
+				if kind < 4 { if let Some(a) = &act {
+					let (o, n) = (line_col(&cells, 0), line_col(&cells, 1));
+					for t in [None, o.clone(), n.clone(), Some(cps_str("zz"))] {
+						let qd = act_str(a).unwrap(); let qt = t.as_ref().map(|s| s_string(s).unwrap());
+						match guarded(move || quill::apply_diff_option(&qd, qt).ok()) {
+							Err(p) => run.r.violation(format!("apply_diff_option panicked: {p}"), replay.clone()),
+							Ok(g) => {
+								let g = g.map(|x| x.map(|s| cps_str(&s)));
+								let want = if o == n { Some(t.clone()) } else if t == o { Some(n.clone()) } else { None };
+								if g != want { run.r.violation("the action read from a line does not turn the old column into the new column".into(), format!("{replay}\ntarget {}\ngot {:?}", sh_opt(&t), g.map(|x| sh_opt(&x)))); }
+							}
+						}
+					}
+				} }
+				run.r.case("line-action", format!("CLine {} {} {}", kind, glist(cells.iter().map(|c| gstr(c))), gres(act.as_ref().map(g_act))));
+			}
+		}
+		run.r.count("line_action_stream");
 	}
 	let nmut = if ctx.thorough { 3000 } else { 260 };
 	for i in 0..nmut {
